@@ -684,8 +684,26 @@ def _flag(it):
     return [0, 0] if it is None else [1, int(it)]
 
 
+_FRESH = {}
+
+
+def _fresh_model(ctx):
+    """When a proof file fails, the core's single make run may stop before the (independent) model and extraction
+    targets are rebuilt, leaving the extracted program on the OLD tables.  Build the extraction target on its own
+    once per run, so the model always follows the regenerated tables."""
+    if _FRESH.get(id(ctx)):
+        return
+    _FRESH[id(ctx)] = True
+    from harness import core
+    with core.CoqLock():
+        rc, out = core.coq_make([EXTRACT[0][:-2] + ".vo"], timeout=600, jobs=4)
+    if rc != 0:
+        raise RuntimeError("model/extraction build failed: " + out[-800:])
+
+
 def _prun(ctx, entry, args, chunk=20000, workers=4):
     """ctx.run_model in chunks on a few threads (each chunk is one run of the extracted program)"""
+    _fresh_model(ctx)
     if len(args) <= 2000:
         return ctx.run_model(entry, args)
     from concurrent.futures import ThreadPoolExecutor
